@@ -76,6 +76,9 @@ REJECTED = [
     "LOCK TABLE {t};",
     "CREATE MATERIALIZED VIEW {v} AS SELECT 1;",
     "REFRESH MATERIALIZED VIEW {v};",
+    "CREATE FUNCTION {f}() RETURNS bigint AS $$ SELECT 1 $$ LANGUAGE sql;",
+    "DO $$ BEGIN PERFORM 1; END $$;",
+    "CREATE FUNCTION {f}() RETURNS int AS $$\n  SELECT {a} FROM {t}\n$$ LANGUAGE sql;",
     "CREATE TABLE;",
     "ALTER TABLE;",
     "CREATE INDEX;",
@@ -204,7 +207,7 @@ def xtable_statements(c, index):
 
 # ------------------------------------------------------------------ blocks
 
-BLOCK_KINDS = ["tables", "ctable", "alter", "typed", "seq", "decl", "set", "drop", "like", "dtable", "xtable"]
+BLOCK_KINDS = ["tables", "ctable", "alter", "typed", "seq", "decl", "set", "drop", "like", "dtable", "xtable", "rtable"]
 
 
 @st.composite
@@ -216,6 +219,12 @@ def block(draw, kinds=BLOCK_KINDS, small=True):
     elif k == "ctable":
         c = draw(c02.case_strategy(("plain", "plain", "dq", "br", "bt")))
         c02.apply_carve_outs(c)
+    elif k == "rtable":
+        # a constraint table whose table-level PRIMARY KEY / UNIQUE / FOREIGN KEY clauses spell their columns differently from the
+        # column definitions (other letter case, other or no delimiters) - metamorphic use only, no model of the outcome
+        c = {"c02": draw(c02.case_strategy(("plain", "plain", "dq", "br", "bt"))), "respell": draw(st.lists(st.integers(0, 5), min_size=1, max_size=6))}
+        c02.apply_carve_outs(c["c02"])
+        c["c02"].pop("layout", None)
     elif k == "alter":
         c = draw(c04.case_strategy(5 if small else 8))
         c["undefined"] = None
@@ -251,6 +260,17 @@ def statements(b, index=0, set_tokens=False):
         return [gen.create_table_tokens(t) for t in c["tables"]]
     if k == "ctable":
         return [gen.create_table_tokens({"schema": c["schema"], "name": c["name"], "items": c02.build_items(c)})]
+    if k == "rtable":
+        cc = copy.deepcopy(c["c02"])
+        n = 0
+        for it in cc["titems"]:
+            if "cols" in it:
+                new = []
+                for name in it["cols"]:
+                    new.append(respell(name, c["respell"][n % len(c["respell"])]))
+                    n += 1
+                it["cols"] = new
+        return [gen.create_table_tokens({"schema": cc["schema"], "name": cc["name"], "items": c02.build_items(cc)})]
     if k == "alter":
         c = copy.deepcopy(c)
         for t in c["tables"]:
@@ -282,6 +302,14 @@ def statements(b, index=0, set_tokens=False):
     raise ValueError(k)
 
 
+def respell(name, code):
+    """another spelling of the same identifier: case change and / or other delimiters"""
+    inner = name.strip('"`[]') if name[:1] in '"`[' else name
+    if " " in inner:
+        return name
+    return [inner, inner.upper(), inner.lower(), '"%s"' % inner, "`%s`" % inner, "[%s]" % inner][code % 6]
+
+
 DECL_BUCKET = {"enum": "types", "object": "types", "table": "types", "kv": "types", "domain": "domains", "domain_enum": "domains", "schema": "schemas",
                "database": "databases", "tablespace": "tablespaces"}
 
@@ -290,7 +318,7 @@ def entity_kinds(b):
     k, c = b["k"], b["c"]
     if k == "tables":
         return ["tables"] * len(c["tables"])
-    if k in ("ctable", "typed", "drop", "like", "dtable", "xtable"):
+    if k in ("ctable", "typed", "drop", "like", "dtable", "xtable", "rtable"):
         return ["tables"]
     if k == "alter":
         return ["tables"] * len(c["tables"])
